@@ -68,6 +68,9 @@ impl<RW: Read + Write> PacketConn<RW> {
 
 impl<W: Read + Write> PacketConn<W> {
     fn maybe_end_packet(&mut self) -> io::Result<()> {
+        #[cfg(feature = "verif-hooks")]
+        #[allow(non_snake_case)]
+        let U24_MAX = crate::verif::packet_limit();
         let len = self.to_write.len() - 4;
         if len != 0 || self.continued {
             self.continued = len == U24_MAX;
